@@ -137,7 +137,7 @@ class DWorld:
     def adv(self):
         self.sim._update_times_on_markets(self.sim.markets)
         t = self.idx.get_time()
-        comps = self.idx.get_components()
+        comps = self.ms[:3] if self.added else self.ms[:2]
         want = wavg([(c.outstanding_shares, c.get_fundamental_price(t)) for c in comps])
         got = self.idx.get_fundamental_price(t)
         if not close(got, want, 1e-12):
@@ -171,7 +171,7 @@ class DWorld:
     def check(self):
         idx = self.idx
         t = idx.get_time()
-        comps = idx.get_components()
+        comps = self.ms[:3] if self.added else self.ms[:2]
         for s_ in list(range(0, t + 1)) + [None]:
             ss = t if s_ is None else s_
             want = wavg([(c.outstanding_shares, c.get_market_price(ss)) for c in comps])
